@@ -34,6 +34,13 @@ def gen_cases(ck):
                       "p_rev": float(ck.rng.choice([0.0, 0.5])), "shifts": True, "relabel": bool(ck.rng.integers(2)),
                       "fit": ["dlite", "taubinSVD"][int(ck.rng.integers(2))], "method": [None, None, "lsq", "lsq_linear"][int(ck.rng.integers(4))],
                       "ne": [None, None, int(ck.rng.integers(2, 13))][int(ck.rng.integers(3))]})
+    for i in range(4 if ck.tier == "quick" else 24):
+        # an inner two-point interface exactly parallel to a coordinate axis (tangent with an exactly vanishing component)
+        cases.append({"type": "tissue", "seed": int(ck.rng.integers(1 << 30)), "tissue": ["random", "jitter", "quad"][i % 3],
+                      "sites": int(ck.rng.integers(24, 50)), "subset": None, "min_ridge": 0.004, "mobius": False, "strength": 1.0,
+                      "kmin": 0, "kmax": [0, 2][i % 2], "param_mode": "uniform", "angle": 0.0, "scale": float(10.0 ** ck.rng.uniform(-1, 1)),
+                      "shift": [0.0, 0.0], "p_rev": 0.5, "shifts": True, "relabel": False, "fit": ["dlite", "taubinSVD"][i % 2],
+                      "method": [None, "lsq_linear"][(i // 2) % 2], "ne": None, "axis_ridge": True})
     for i in range(6 if ck.tier == "quick" else 40):
         # straight tissues whose inner interfaces are given by their two end points (also those that reach the outline), the outline
         # itself sampled with interior points: resampled with the default options
@@ -46,7 +53,7 @@ def gen_cases(ck):
 
 
 def run_case(ck, case, reqs, pending):
-    sc = statics.build_static(case)
+    sc = statics.build_static_axis_ridge(case) if case.get("axis_ridge") else statics.build_static(case)
     if sc is None:
         ck.count("rejected_tissue"); return
     fit, method, ne = case.get("fit", "dlite"), case.get("method"), case.get("ne")
